@@ -225,6 +225,55 @@ Section Cid.
     let '(s, o) := crun (cs_ctes cs) (cs_rds cs) (mkst skey [] false) main in
     (cs, os, o, sorting skey s).
 
+  (* ---- alias_last_sorting + the final redirect: what the ORDER BY appended to the main relation names.
+     decls: column_decls reduced to what the function reads -- a relation column (its instance, its id there) or a Compute
+     (and, if its expression is a bare column reference, the referenced id). *)
+  Inductive decl := DRel (riid col : nat) | DCompute (column_ref : option nat).
+  Definition decl_of (decls : list (nat * decl)) (c : nat) : option decl :=
+    match find (fun p => Nat.eqb (fst p) c) decls with Some p => Some (snd p) | None => None end.
+
+  (* column -> alias: the Compute with the SMALLEST id whose expression is a reference to the column (the code fills a map
+     walking the declarations by descending id, later insertions overwrite) *)
+  Definition alias_of (decls_ascending : list (nat * decl)) (c : nat) : option nat :=
+    match find (fun p => match snd p with DCompute (Some r) => Nat.eqb r c | _ => false end) decls_ascending with
+    | Some p => Some (fst p) | None => None end.
+
+  (* revert a column to its very first form: while it is a relation column whose id is the TARGET of a redirect of its
+     instance, go to the source; remember the instances, innermost first *)
+  Fixpoint revert (fuel : nat) (decls : list (nat * decl)) (rds : list (nat * list (nat * nat))) (c : nat) (riids : list nat) : nat * list nat :=
+    match fuel with
+    | O => (c, riids)
+    | S f =>
+        match decl_of decls c with
+        | Some (DRel riid col) =>
+            match find (fun p => Nat.eqb (snd p) col) (rd_of rds riid) with
+            | Some p => revert f decls rds (fst p) (riid :: riids)
+            | None => (c, riids)
+            end
+        | _ => (c, riids)
+        end
+    end.
+
+  (* forward again through the same instances: stop as soon as the column is in the final select; re-target to an alias
+     that the instance carries out (fix c83467e); follow the instance's redirect *)
+  Fixpoint forward (decls : list (nat * decl)) (rds : list (nat * list (nat * nat))) (final_select : list nat) (c : nat) (riids : list nat) : nat :=
+    match riids with
+    | [] => c
+    | riid :: rest =>
+        if existsb (Nat.eqb c) final_select then c else
+        let rd := rd_of rds riid in
+        let c1 := match alias_of decls c with
+                  | Some a => if existsb (fun p => Nat.eqb (fst p) a) rd then a else c
+                  | None => c
+                  end in
+        forward decls rds final_select (redirect_cid rd c1) rest
+    end.
+
+  Definition alias_last_sorting (fuel : nat) (decls : list (nat * decl)) (rds : list (nat * list (nat * nat)))
+                                (final_select : list nat) (from_riid : nat) (k : skey) : skey :=
+    redirect_sorts (rd_of rds from_riid)
+      (map (fun cb => let '(c0, riids) := revert fuel decls rds (fst cb) [] in (forward decls rds final_select c0 riids, snd cb)) k).
+
   (* ---- erasure to the kind-level model (keys = lists of directions) ---- *)
   Definition erase_item (i : citem) : item (list bool) :=
     match i with
